@@ -2,6 +2,7 @@
   `cbuf_write_line` refines the specification (two chained `cbuf_writer` calls).
 -/
 import PdshVerif.Cbuf.Refine
+import PdshVerif.Cbuf.Whole
 
 namespace PdshVerif.Cbuf
 
@@ -23,7 +24,9 @@ theorem writer_mem_all {c : Cbuf} (hi : Inv c) (bs : List UInt8) (hpos : 0 < bs.
     Inv r.c ∧ r.c.size = c.size ∧ r.c.mode = c.mode ∧ r.c.minsize = c.minsize ∧ r.c.maxsize = c.maxsize ∧
     r.c.used = min (c.used + bs.length) c.size ∧
     r.ndropped = bs.length - (c.size - c.used) ∧
-    contents r.c = (contents c ++ bs).drop ((contents c ++ bs).length - c.size) := by
+    contents r.c = (contents c ++ bs).drop ((contents c ++ bs).length - c.size) ∧
+    whole r.c = Spec.lastN c.size (whole c ++ bs) := by
+  have hww := writer_whole hi bs.length hpos (.mem bs) (by simp [Src.ok])
   obtain ⟨_, hcore⟩ := writer_ok hi bs.length hpos (.mem bs) (by simp [Src.ok])
   rw [maybeGrow_noop bs.length hng] at hcore
   simp only at hcore
@@ -39,9 +42,12 @@ theorem writer_mem_all {c : Cbuf} (hi : Inv c) (bs : List UInt8) (hpos : 0 < bs.
   rw [hel] at hcore
   obtain ⟨_, _, hco⟩ := hcore
   have hav : (Src.mem bs).avail bs.length = bs := by simp [Src.avail]
-  obtain ⟨_, e2, e3, e4, e5, e6, e7, e8⟩ := hco.some (by rw [hav]; exact hpos)
-  rw [hav] at e2 e8
-  refine ⟨e3, e4, e5, e6, e7, ?_, e2, e8⟩
+  obtain ⟨e1, e2, e3, e4, e5, e6, e7, e8⟩ := hco.some (by rw [hav]; exact hpos)
+  rw [hav] at e1 e2 e8
+  refine ⟨e3, e4, e5, e6, e7, ?_, e2, e8, ?_⟩
+  rotate_left
+  · rw [hww, e1, e4, Int.toNat_natCast]
+    simp only [Src.bytes, List.take_length]
   have := contents_length (writer c bs.length (.mem bs)).c
   rw [e8] at this
   simp only [List.length_drop, List.length_append, contents_length] at this
@@ -106,7 +112,8 @@ theorem writeLine_core {c : Cbuf} (hi : Inv c) (psrc : List UInt8) (needNl : Boo
     Inv r2.1 ∧ r2.1.size = c.size ∧ r2.1.mode = c.mode ∧ r2.1.minsize = c.minsize ∧ r2.1.maxsize = c.maxsize ∧
     r1.2 + r2.2 = total - (c.size - c.used) ∧
     contents r2.1 = (contents c ++ psrc ++ (if needNl then [10] else [])).drop
-      ((contents c ++ psrc ++ (if needNl then [10] else [])).length - c.size) := by
+      ((contents c ++ psrc ++ (if needNl then [10] else [])).length - c.size) ∧
+    whole r2.1 = Spec.lastN c.size (whole c ++ psrc ++ (if needNl then [10] else [])) := by
   have hu := hi.used
   have hcl := contents_length c
   -- first call
@@ -114,26 +121,28 @@ theorem writeLine_core {c : Cbuf} (hi : Inv c) (psrc : List UInt8) (needNl : Boo
         let r := writer c psrc.length (.mem psrc); (r.c, r.ndropped) else (c, 0)) = (c1, d1) ∧
       Inv c1 ∧ c1.size = c.size ∧ c1.mode = c.mode ∧ c1.minsize = c.minsize ∧ c1.maxsize = c.maxsize ∧
       c1.used = min (c.used + psrc.length) c.size ∧ d1 = psrc.length - (c.size - c.used) ∧
-      contents c1 = (contents c ++ psrc).drop ((contents c ++ psrc).length - c.size) := by
+      contents c1 = (contents c ++ psrc).drop ((contents c ++ psrc).length - c.size) ∧
+      whole c1 = Spec.lastN c.size (whole c ++ psrc) := by
     by_cases hp : psrc.length > 0
     · have hw := writer_mem_all hi psrc hp (by omega)
         (by cases hm : c.mode <;> simp only [hm] at hfit ⊢ <;> omega)
       simp only [hp, if_true]
       exact ⟨_, _, rfl, hw.1, hw.2.1, hw.2.2.1, hw.2.2.2.1, hw.2.2.2.2.1, hw.2.2.2.2.2.1, hw.2.2.2.2.2.2.1,
-        hw.2.2.2.2.2.2.2⟩
+        hw.2.2.2.2.2.2.2.1, hw.2.2.2.2.2.2.2.2⟩
     · have hnil : psrc = [] := List.eq_nil_of_length_eq_zero (by omega)
       simp only [hp, if_false]
-      refine ⟨c, 0, rfl, hi, rfl, rfl, rfl, rfl, ?_, ?_, ?_⟩
+      refine ⟨c, 0, rfl, hi, rfl, rfl, rfl, rfl, ?_, ?_, ?_, ?_⟩
       · subst hnil; simp; omega
       · subst hnil; simp
       · subst hnil; simp [hcl]; have : c.used - c.size = 0 := by omega
         rw [this]; simp
-  obtain ⟨c1, d1, he1, hi1, hs1, hm1, hmin1, hmax1, hu1, hd1, hq1⟩ := h1
+      · subst hnil; rw [List.append_nil, lastN_all _ _ (whole_le hi)]
+  obtain ⟨c1, d1, he1, hi1, hs1, hm1, hmin1, hmax1, hu1, hd1, hq1, hwh1⟩ := h1
   simp only [he1]
   cases needNl with
   | false =>
     simp only [Bool.false_eq_true, if_false, List.append_nil, Nat.add_zero] at htot ⊢
-    exact ⟨hi1, hs1, hm1, hmin1, hmax1, by omega, hq1⟩
+    exact ⟨hi1, hs1, hm1, hmin1, hmax1, by omega, hq1, hwh1⟩
   | true =>
     simp only [if_true] at htot ⊢
     have hw := writer_mem_all hi1 [10] (by simp)
@@ -141,11 +150,13 @@ theorem writeLine_core {c : Cbuf} (hi : Inv c) (psrc : List UInt8) (needNl : Boo
       (by rw [hm1]; cases hm : c.mode <;> simp only [hm] at hfit ⊢ <;>
             simp only [List.length_cons, List.length_nil] <;> (try rw [hs1, hu1]) <;> omega)
     simp only [List.length_cons, List.length_nil, Nat.zero_add] at hw
-    obtain ⟨w1, w2, w3, w4, w5, _, w7, w8⟩ := hw
-    refine ⟨w1, by rw [w2, hs1], by rw [w3, hm1], by rw [w4, hmin1], by rw [w5, hmax1], ?_, ?_⟩
+    obtain ⟨w1, w2, w3, w4, w5, _, w7, w8, w9⟩ := hw
+    refine ⟨w1, by rw [w2, hs1], by rw [w3, hm1], by rw [w4, hmin1], by rw [w5, hmax1], ?_, ?_, ?_⟩
     · rw [w7, hd1, hs1, hu1]; omega
     · rw [w8, hq1, hs1]
       exact lastN_lastN (contents c) psrc c.size
+    · rw [w9, hwh1, hs1]
+      exact lastN_lastN (whole c) psrc c.size
 
 end PdshVerif.Cbuf
 
@@ -166,7 +177,11 @@ theorem lastN_drop_prefix (a b : List UInt8) (k n : Nat) (hk : k ≤ a.length)
 theorem writeLine_refines {c0 : Cbuf} (hi : Inv c0) (s : List UInt8) :
     Spec.writeLine (abs c0) s (writeLine c0 s).2.2.size =
       some ((writeLine c0 s).1, (writeLine c0 s).2.1, abs (writeLine c0 s).2.2) ∧
-    Inv (writeLine c0 s).2.2 := by
+    Inv (writeLine c0 s).2.2 ∧
+    whole (writeLine c0 s).2.2 = Spec.lastN (writeLine c0 s).2.2.size
+      (whole c0 ++ if (writeLine c0 s).1 < 0 then [] else
+        (if s.length = 0 ∨ s.getLast? ≠ some 10 then s ++ [10] else s)) := by
+  have hgw0 : ∀ len, whole (maybeGrow c0 len).1 = whole c0 := fun len => maybeGrow_whole hi len
   unfold writeLine
   simp only [maybeGrow_fst]
   -- the line actually appended
@@ -176,7 +191,8 @@ theorem writeLine_refines {c0 : Cbuf} (hi : Inv c0) (s : List UInt8) :
   simp only [hnl']
   generalize hlen : (if needNl = true then s.length + 1 else s.length) = len
   have hg := maybeGrow_ok hi len
-  generalize (maybeGrow c0 len).1 = c at hg
+  have hgw := hgw0 len
+  generalize (maybeGrow c0 len).1 = c at hg hgw
   generalize (maybeGrow c0 len).2 = nf at hg
   have hci := hg.inv
   have hsp := hci.spos; have hu := hci.used
@@ -219,7 +235,7 @@ theorem writeLine_refines {c0 : Cbuf} (hi : Inv c0) (s : List UInt8) :
   cases refused with
   | true =>
     rw [if_pos rfl]
-    refine ⟨?_, hci⟩
+    refine ⟨?_, hci, by simp only [Int.reduceNeg, Int.reduceLT, if_true, List.append_nil]; rw [← hgw, lastN_all _ _ (whole_le hci)]⟩
     simp only [Spec.writeLine, hline, hll, hadm, Bool.not_true, Bool.false_eq_true, if_false, abs_q, hcl, abs_mode,
       abs_minsize, abs_maxsize, hrefS, hlo, if_true, habs]
   | false =>
@@ -252,8 +268,32 @@ theorem writeLine_refines {c0 : Cbuf} (hi : Inv c0) (s : List UInt8) :
         ((writer c1 1 (.mem [10])).c, (writer c1 1 (.mem [10])).ndropped) else (c1, 0)) = r2 at hcore
     obtain ⟨c2, d2⟩ := r2
     simp only [hr2] at hcore ⊢
-    obtain ⟨k1, k2, k3, k4, k5, k6, k7⟩ := hcore
-    refine ⟨?_, k1⟩
+    obtain ⟨k1, k2, k3, k4, k5, k6, k7, k8⟩ := hcore
+    have hgen : ∀ w : List UInt8,
+        (w ++ s.drop nd ++ if needNl = true then [10] else []).drop
+          ((w ++ s.drop nd ++ if needNl = true then [10] else []).length - c.size) =
+        Spec.lastN c.size (w ++ (s ++ if needNl = true then [10] else [])) := by
+      intro w
+      simp only [Spec.lastN]
+      by_cases hbig : len > c.size
+      · have hndv : nd = len - c.size := by rw [← hnd]; simp [hbig]
+        have hxl : (s.drop nd ++ if needNl = true then [10] else []).length = c.size := by
+          simp only [List.length_append, hpl]
+          cases needNl <;> simp at hlen ⊢ <;> omega
+        rw [List.append_assoc,
+            lastN_of_tail_ge w (s.drop nd ++ if needNl = true then [10] else []) c.size (by omega),
+            lastN_of_tail_ge w (s ++ if needNl = true then [10] else []) c.size (by rw [hll]; omega)]
+        exact lastN_drop_prefix s _ nd c.size hndle (by omega)
+      · have hndv : nd = 0 := by rw [← hnd]; simp [hbig]
+        rw [hndv]; simp [List.append_assoc]
+    refine ⟨?_, k1, ?_⟩
+    rotate_left
+    · have hnn : ¬ ((len : Int) < 0) := by omega
+      simp only [hnn, if_false]
+      have hline2 : (if needNl = true then s ++ [10] else s) = s ++ if needNl = true then [10] else [] := by
+        cases needNl <;> simp
+      rw [k8, k2, hgw, hline2]
+      exact hgen (whole c0)
     rw [k2]
     simp only [Spec.writeLine, hline, hll, hadm, Bool.not_true, Bool.false_eq_true, if_false, abs_q, hcl, abs_mode,
       abs_minsize, abs_maxsize, hrefS, hlo]
